@@ -273,7 +273,7 @@ func c01Menu(n, cap int, armed bool) []c01Event {
 	}
 	if !armed {
 		out = append(out, c01Event{Kind: "arm", A: "userinfo"}, c01Event{Kind: "arm", A: "key"}, c01Event{Kind: "arm", A: "key", B: world.FaultNoCert}, c01Event{Kind: "arm", A: "entity"},
-			c01Event{Kind: "arm", A: "userinfo", B: world.FaultPartial}, c01Event{Kind: "arm", A: "key", B: world.FaultGarbageCert}, c01Event{Kind: "arm", A: "key", B: world.FaultZeroKey}, c01Event{Kind: "arm", A: "key", B: world.FaultMismatch})
+			c01Event{Kind: "arm", A: "userinfo", B: world.FaultPartial}, c01Event{Kind: "arm", A: "key", B: world.FaultGarbageCert}, c01Event{Kind: "arm", A: "key", B: world.FaultZeroKey}, c01Event{Kind: "arm", A: "key", B: world.FaultMismatch}, c01Event{Kind: "arm", A: "key", B: world.FaultForeignKey})
 	}
 	return out
 }
